@@ -1,45 +1,89 @@
-import ShVerif.Model.C10
+import ShVerif.Proofs.C10
+import ShVerif.Gen.C10
 /-
-  C10 — incompleteness is reported: for every here-document body that ends before its stop word
-  (any cut of a valid program inside a here-document), the error is marked Incomplete, for quoted
-  and unquoted delimiters, with and without `<<-`.  The pinned tree violated this for quoted
-  delimiters (counter-example theorem below); the `fix:` commit repaired it.
+  C10 — parse errors are well-formed and incompleteness is reported.
+
+  Proved here (about the model of posErr / Parser.Incomplete / doHeredocs / Parser.next that the
+  harness ties to the parser, and about tables regenerated from the source on every run):
+   * the decision: an error is Incomplete iff it is raised at EOF while a statement/word bracket is
+     open or a literal is being collected;
+   * here-document bodies: every cut inside a body read from within a statement is Incomplete, for
+     all delimiter forms; bodies with their stop line close;
+   * scheduling: the newline ending the `<<` line reads the bodies iff it is lexed outside every
+     preNested region entered after the `<<` — otherwise (`[[ … ]]`, `let …` at the end of the line)
+     a cut right after that line is reported as a hard error: the full statement is FALSE of the
+     model and of the code (counter-example theorems; known finding C10-heredoc-buried-newline);
+   * error_sites: every call that creates a ParseError/LangError takes its position from the
+     token position, `nextPos()`, a node's Pos()/End(), a Pos field of a node, or a parameter that
+     every caller fills in the same way.
+  The all-programs statement (every construct, every cut, every error offset) is the harness's
+  search leg.
 -/
 namespace ShVerif.C10
 
-theorem scanQuoted_unclosed (tabs : Bool) (stop : Bytes) (s : PState) (lines acc : List Bytes)
-    (h : ∀ l ∈ lines, (if tabs then stripTabs l else l) ≠ stop) :
-    scanQuoted true tabs stop s lines acc = .unclosedErr true := by
-  induction lines generalizing acc with
-  | nil => simp [scanQuoted, PState.incomplete]
-  | cons l ls ih =>
-    have hl := h l (by simp)
-    have hls : ∀ x ∈ ls, (if tabs then stripTabs x else x) ≠ stop := fun x hx => h x (by simp [hx])
-    simp only [scanQuoted]
-    rw [if_neg hl]
-    exact ih _ hls
+/-! ### the decision -/
 
-theorem scanUnquoted_unclosed (tabs : Bool) (stop : Bytes) (s : PState) (lines acc : List Bytes)
-    (h : ∀ l ∈ lines, (if tabs then stripTabs l else l) ≠ stop) :
-    scanUnquoted tabs stop s lines acc = .unclosedErr true := by
-  induction lines generalizing acc with
-  | nil => simp [scanUnquoted, PState.incomplete]
-  | cons l ls ih =>
-    have hl := h l (by simp)
-    have hls : ∀ x ∈ ls, (if tabs then stripTabs x else x) ≠ stop := fun x hx => h x (by simp [hx])
-    simp only [scanUnquoted]
-    rw [if_neg hl]
-    exact ih _ hls
+theorem err_incomplete_iff (s : PState) :
+    s.errIncomplete = true ↔ s.tok = .eof ∧ (s.openNodes > 0 ∨ s.litLen > 0) := by
+  cases s with
+  | mk tok o l => cases tok <;> simp [PState.errIncomplete, PState.incomplete]
 
-/-- Every prefix of a here-document body that does not contain the stop line is reported as an
-    *incomplete* error — all delimiter forms, any parser state at the start of the body. -/
+/-- An error raised at EOF anywhere inside a `stmts`/`wordParts` bracket is Incomplete. -/
+theorem bracket_eof_incomplete (depth lit : Nat) (h : depth > 0) :
+    (inBrackets .eof depth lit).errIncomplete = true := by
+  simp [inBrackets, PState.errIncomplete, PState.incomplete]; omega
+
+/-- An error raised at EOF while a literal is being collected is Incomplete. -/
+theorem literal_eof_incomplete (depth lit : Nat) (h : lit > 0) :
+    (inBrackets .eof depth lit).errIncomplete = true := by
+  simp [inBrackets, PState.errIncomplete, PState.incomplete]; omega
+
+/-- An error raised at any token other than EOF is never Incomplete. -/
+theorem not_eof_not_incomplete (s : PState) (h : s.tok ≠ .eof) : s.errIncomplete = false := by
+  cases s with
+  | mk tok o l => cases tok <;> simp_all [PState.errIncomplete]
+
+/-- … and neither is one raised at EOF by the entry point itself, after `stmts` has returned. -/
+theorem toplevel_eof_not_incomplete : (inBrackets .eof 0 0).errIncomplete = false := by decide
+
+/-! ### one here-document body -/
+
+/-- Every prefix of a here-document body that does not contain the stop line, read from inside a
+    statement (or any other open bracket), is reported as an *incomplete* error — all delimiter
+    forms. -/
 theorem heredoc_prefix_incomplete (quoted tabs : Bool) (stop : Bytes) (s : PState)
-    (lines : List Bytes) (h : ∀ l ∈ lines, (if tabs then stripTabs l else l) ≠ stop) :
+    (lines : List Bytes) (h : ∀ l ∈ lines, (if tabs then stripTabs l else l) ≠ stop)
+    (hctx : s.openNodes > 0) :
     scan true quoted tabs stop s lines = .unclosedErr true := by
   unfold scan
   cases quoted
-  · simpa using scanUnquoted_unclosed tabs stop s lines [] h
-  · simpa using scanQuoted_unclosed tabs stop s lines [] h
+  · simp [scanUnquoted_unclosed tabs stop s lines [] h, hctx]
+  · simp [scanQuoted_unclosed tabs stop s lines [] h, hctx]
+
+/-- A quoted body of which at least one line has been read is incomplete whoever the caller is
+    (the unterminated literal keeps `len(litBs) > 0`). -/
+theorem quoted_body_incomplete (tabs : Bool) (stop : Bytes) (s : PState) (l : Bytes)
+    (lines : List Bytes) (h : ∀ x ∈ l :: lines, (if tabs then stripTabs x else x) ≠ stop) :
+    scan true true tabs stop s (l :: lines) = .unclosedErr true := by
+  unfold scan
+  simp only [if_true]
+  rw [scanQuoted_unclosed tabs stop s (l :: lines) [] h]
+  simp [litBytes]
+  omega
+
+/-- The same statement without the context hypothesis — what the property asks for. -/
+def heredoc_prefix_incomplete_statement : Prop :=
+  ∀ (quoted tabs : Bool) (stop : Bytes) (s : PState) (lines : List Bytes),
+    (∀ l ∈ lines, (if tabs then stripTabs l else l) ≠ stop) →
+    scan true quoted tabs stop s lines = .unclosedErr true
+
+/-- It is false: a body read by `Parse` itself at the end of the input (no bracket open, nothing
+    read) gives an error that is not incomplete. -/
+theorem heredoc_prefix_incomplete_fails : ¬ heredoc_prefix_incomplete_statement := by
+  intro h
+  have := h false false [69] (inBrackets .eof 0 0) [] (by simp)
+  revert this
+  decide
 
 /-- A body containing its stop line closes, and the lines before it are the body. -/
 theorem heredoc_closes (quoted tabs : Bool) (stop : Bytes) (s : PState) (pre post : List Bytes)
@@ -66,15 +110,165 @@ theorem heredoc_closes (quoted tabs : Bool) (stop : Bytes) (s : PState) (pre pos
   · exact ⟨_, by simpa using (gen []).2, by simp⟩
   · exact ⟨_, by simpa using (gen []).1, by simp⟩
 
-/-- The pinned code (before the fix): a quoted here-document cut inside its body gave an error
-    that was NOT incomplete — `cat <<'EOF'` + `foo` at top level. -/
+/-- The pinned code (before fix d47bd94): a quoted here-document cut inside its body gave an error
+    that was NOT incomplete — `cat <<'EOF'` + `foo`, read from inside the statement. -/
 theorem pinned_quoted_heredoc_not_incomplete :
-    scan false true false [69, 79, 70] { tok := .newl, openNodes := 0, litLen := 0 } [[102, 111, 111]]
-      = .unclosedErr false := by
+    scan false true false [69, 79, 70] (inBrackets .newl 1 0) [[102, 111, 111]] = .unclosedErr false := by
   decide
 
-/-- non-vacuity: a concrete unfinished `<<-'E'` body -/
-example : scan true true true [69] { tok := .newl, openNodes := 1, litLen := 0 } [[9, 120], [9, 9, 121]]
-    = .unclosedErr true := by decide
+/-! ### which newline reads the bodies -/
+
+theorem newline_fires_iff (s : LSt) : (step s .newl).fired = true ↔ (s.fired = true ∨ s.pending > s.buried) := by
+  simp only [step, LSt.newlineFires]
+  by_cases h : s.pending > s.buried <;> simp [h]
+
+/-- items that neither open nor close a preNested region nor end the line -/
+def flat : Item → Bool
+  | .hdoc | .tok => true
+  | _ => false
+
+theorem flat_keeps (s : LSt) (post : List Item) (hp : post.all flat = true) (h : s.pending > s.buried) :
+    (post.foldl step s).pending > (post.foldl step s).buried ∧ (post.foldl step s).buried = s.buried := by
+  induction post generalizing s with
+  | nil => exact ⟨h, rfl⟩
+  | cons i is ih =>
+    rw [List.all_cons, Bool.and_eq_true] at hp
+    obtain ⟨hi, his⟩ := hp
+    cases i with
+    | hdoc =>
+      have := ih (step s .hdoc) his (by simp [step]; omega)
+      simpa [step] using this
+    | tok =>
+      have := ih (step s .tok) his (by simpa [step] using h)
+      simpa [step] using this
+    | enter => simp [flat] at hi
+    | leave => simp [flat] at hi
+    | newl => simp [flat] at hi
+
+/-- A line whose `<<` is followed only by ordinary tokens (and further `<<`) up to its newline reads
+    its bodies at that newline, whatever came before the `<<` (inside `$(`, `{`, `if` …). -/
+theorem flat_tail_fires (pre post : List Item) (hp : post.all flat = true) :
+    lineFires (pre ++ .hdoc :: post ++ [.newl]) = true := by
+  unfold lineFires runLine
+  rw [List.foldl_append, List.foldl_append, List.foldl_cons]
+  have hwf := (foldl_wf pre _ init_wf).1
+  generalize pre.foldl step LSt.init = s0 at hwf ⊢
+  have hk := flat_keeps (step s0 .hdoc) post hp (by simp [step]; omega)
+  have hf : (post.foldl step (step s0 .hdoc)).newlineFires = true := by
+    simpa [LSt.newlineFires] using hk.1
+  show (step (post.foldl step (step s0 .hdoc)) .newl).fired = true
+  generalize post.foldl step (step s0 .hdoc) = s1 at hf
+  simp [step, hf]
+
+/-- The cut right after the `<<` line, when that line's newline reads the bodies: incomplete for
+    every delimiter form and every number of body lines already present. -/
+theorem heredoc_cut_incomplete_partial (items : List Item) (quoted : Bool) (stop : Bytes)
+    (body : List Bytes) (hb : ∀ l ∈ body, l ≠ stop) (hf : lineFires items = true) :
+    prefixFlag items quoted stop body = some true := by
+  unfold lineFires at hf
+  have h := heredoc_prefix_incomplete quoted false stop (inBrackets .newl 1 0) body
+    (by simpa using hb) (by simp [inBrackets])
+  simp [prefixFlag, hf, h]
+
+/-- When it does not, a cut after at least one further line is still incomplete (that line's own
+    newline reads the bodies, from inside its statement). -/
+theorem heredoc_cut_deferred_body (items : List Item) (quoted : Bool) (stop : Bytes)
+    (l : Bytes) (rest : List Bytes) (hb : ∀ x ∈ rest, x ≠ stop)
+    (hf : lineFires items = false) (hp : (runLine items).pending ≠ 0) :
+    prefixFlag items quoted stop (l :: rest) = some true := by
+  unfold lineFires at hf
+  have h := heredoc_prefix_incomplete quoted false stop (inBrackets .newl 1 0) rest
+    (by simpa using hb) (by simp [inBrackets])
+  simp [prefixFlag, hf, hp, h]
+
+/-- The property's own demand on this mechanism: every cut after a line holding a `<<` whose
+    body has not ended is reported as incomplete. -/
+def heredoc_cut_incomplete_statement : Prop :=
+  ∀ (items : List Item) (quoted : Bool) (stop : Bytes) (body : List Bytes),
+    (∀ l ∈ body, l ≠ stop) → (∃ b, prefixFlag items quoted stop body = some b) →
+    prefixFlag items quoted stop body = some true
+
+/-- It is false of the model (and of the code, see the harness's `sched` tie and corpus/C10-known.txt):
+    `cat <<E; [[ a = b ]]` + newline + EOF.  The newline token is lexed by `gotRsrv("]]")` before
+    `postNested` un-buries the pending here-document; `Parse` then reads the body itself. -/
+theorem buried_newline_not_incomplete :
+    prefixFlag [.tok, .hdoc, .tok, .enter, .tok, .tok, .tok, .tok, .newl, .leave] false [69] [] = some false := by
+  decide
+
+theorem heredoc_cut_incomplete_fails : ¬ heredoc_cut_incomplete_statement := by
+  intro h
+  have := h [.tok, .hdoc, .tok, .enter, .tok, .tok, .tok, .tok, .newl, .leave] false [69] [] (by simp)
+    ⟨false, by decide⟩
+  revert this
+  decide
+
+/-- non-vacuity: the ordinary `cat <<E` + newline, cut before the body, and `<<-'E'` with a body -/
+example : prefixFlag [.tok, .hdoc, .newl] false [69] [] = some true := by decide
+example : prefixFlag [.tok, .hdoc, .tok, .enter, .tok, .leave, .newl] true [69] [[9, 120]] = some true := by decide
+example : scan true true true [69] (inBrackets .newl 1 0) [[9, 120], [9, 9, 121]] = .unclosedErr true := by decide
+
+/-! ### error_sites: where error positions come from (regenerated table) -/
+
+open ShVerif.Gen.C10 in
+/-- position sources that are lexer or node positions by themselves -/
+def basicOK : Gen.C10.Origin → Bool
+  | ("sel", "p", "pos") => true                       -- position of the current token
+  | ("pcall", _, "nextPos") => true                   -- position of the next rune
+  | ("method", _, n) => n == "Pos" || n == "End"      -- a node's position
+  | ("sel", _, f) => Gen.C10.posFields.contains f     -- a Pos field of a node (or the parser's own `pos`)
+  | ("zero", _, _) => true                            -- Pos{}: invalid, never inside-or-outside anything
+  | ("global", _, "recoveredPos") => true             -- the RecoverErrors marker, invalid as well
+  | _ => false
+
+/-- a Pos-returning Parser method all of whose returns are basic (or results of such a method) -/
+def resultOK (fuel : Nat) (name idx : String) : Bool :=
+  match fuel with
+  | 0 => false
+  | fuel + 1 =>
+    match Gen.C10.returns.find? (fun r => r.1 == name && toString r.2.1 == idx) with
+    | none => false
+    | some (_, _, os) =>
+      !os.isEmpty && os.all fun o =>
+        basicOK o || (match o with
+          | ("result", i, n) => resultOK fuel n i
+          | _ => false)
+
+def originOK (fn : String) (o : Gen.C10.Origin) : Bool :=
+  basicOK o ||
+  (match o with
+   | ("param", _, n) => Gen.C10.forwarders.contains (fn, n)   -- handed on: every call of `fn` is a site itself
+   | ("result", i, n) => resultOK 3 n i
+   | _ => false)
+
+/-- Every call that creates (or forwards to the creation of) a ParseError/LangError takes its
+    position from the current token, `nextPos()`, a node, a Pos field, or a parameter of a function
+    all of whose calls are sites of this table; and there is no other way to create one:
+    the two composite literals live in posErr/checkLang and use their position parameter,
+    `errPass` is called by those two only, `p.err` is otherwise assigned by fill (read errors),
+    reset and errPass. -/
+theorem error_sites :
+    Gen.C10.sites.all (fun s => !s.2.2.2.isEmpty && s.2.2.2.all (originOK s.1)) = true
+    ∧ Gen.C10.creators = [("Parser.posErr", "ParseError", 0), ("Parser.checkLang", "LangError", 0)]
+    ∧ Gen.C10.errPassCallers = ["Parser.posErr", "Parser.checkLang"]
+    ∧ Gen.C10.errAssigns.all (fun f => ["Parser.fill", "Parser.reset", "Parser.errPass"].contains f) = true := by
+  decide +kernel
+
+/-- non-vacuity: the table is not empty and uses every kind of source -/
+theorem error_sites_nonvacuous :
+    Gen.C10.sites.length ≥ 100
+    ∧ ["sel", "pcall", "method", "param", "result"].all (fun k =>
+        Gen.C10.sites.any fun s => s.2.2.2.any fun o => o.1 == k) = true := by
+  decide +kernel
+
+/-- Stated only — owned by the byte-source layer L2 (lean/ShVerif/Model/L2ByteSrc.lean, properties
+    C07/C09, still being proved when this package was written, hence not imported): for the relation
+    `handsOut input off` = "some run of the lexer primitives over `input` (any read schedule, any
+    client respecting the newLit/endLit protocol) makes `p.pos` or `nextPos()` have offset `off`",
+    every such offset is at most the number of input bytes.  Together with `error_sites` (every
+    error position is such a position, a node position built from them, or invalid) this is the
+    position clause of C10; in this package the clause is executed on the implementation by the
+    search leg (`errpos` witnesses). -/
+def error_pos_in_input_statement (handsOut : List UInt8 → Nat → Prop) : Prop :=
+  ∀ (input : List UInt8) (off : Nat), handsOut input off → off ≤ input.length
 
 end ShVerif.C10
